@@ -2,6 +2,7 @@ import PyRt
 import Driver.Dispatch
 import Driver.Unicode
 import Driver.Wsgi
+import Driver.Checksum
 /-!
 Native model driver: one request per line on stdin (`<module>:<function>\t<json args>`),
 one response per line on stdout.  Hand-written handlers for the spec-level models are tried first.
@@ -13,7 +14,8 @@ namespace Driver
 /-- handlers of the hand-written models (spec level, PyRt built-ins) -/
 def handWritten (target : String) (args : List Json) : Option String :=
   (Driver.Unicode.handle target args).orElse fun _ =>
-  (Driver.Wsgi.handle target args)
+  (Driver.Wsgi.handle? target args).orElse fun _ =>
+  (Driver.Checksum.handle target args)
 
 def handleLine (line : String) : String :=
   match Py.Wire.parseLine line with
